@@ -650,8 +650,33 @@ func lifeSchedConfigs(prop string, check func(lifeCfg) func(*world, *sched.Outco
 	}
 }
 
+func clientConfigs(prop string) []sched.Config {
+	var out []sched.Config
+	for _, et := range []bool{false, true} {
+		et := et
+		m := map[bool]string{false: "LT", true: "ET"}[et]
+		out = append(out,
+			sched.Config{Property: prop, Name: "client-udp/" + m, Bounds: engineBounds(2, 3, 0), Horizon: 20000, Deadline: seqmc.Deadline(), DelayBounded: true, New: func() sched.Scenario { return clientUDPWorld(et) }},
+			sched.Config{Property: prop, Name: "client-stop/" + m, Bounds: engineBounds(2, 3, 0), Horizon: 20000, Deadline: seqmc.Deadline(), DelayBounded: true, New: func() sched.Scenario {
+				sc := clientStopWorld(et).(*clientWorld)
+				sc.checks = append(sc.checks, fdCheck)
+				return sc
+			}})
+	}
+	return out
+}
+
 func TestMC_C04(t *testing.T) {
-	cfgs, byName := lifeSchedConfigs("C04", lifecycleCheck)
+	cfgs, byName0 := lifeSchedConfigs("C04", lifecycleCheck)
+	cfgs = append(cfgs, clientConfigs("C04")...)
+	byName := func(name string) *sched.Config {
+		for i := range cfgs {
+			if cfgs[i].Name == name {
+				return &cfgs[i]
+			}
+		}
+		return byName0(name)
+	}
 	runEngineCheck(t, "C04", cfgs, byName, fmt.Sprintf("%d connection histories x {LT,ET} (1-2 loops, unix sockets), every interleaving of engine, peer and user threads up to the preemption bound listed per scenario", len(cfgs)))
 }
 
@@ -671,6 +696,7 @@ func TestMC_C07(t *testing.T) {
 			return w
 		}})
 	}
+	cfgs = append(cfgs, clientConfigs("C07")...)
 	// failed engine start (resource exhaustion, failed registrations): nothing may leak or be closed twice
 	for _, loops := range []int{1, 2} {
 		loops := loops
